@@ -18,7 +18,7 @@ Starts == {i \in 1..Len(Trace) : Trace[i].ev = "reset"}
 VARIABLES tr, l, open          \* open: the caller has a call in flight whose return was not yet recorded
 tvars == <<vars, tr, l, open>>
 
-TInit == Init /\ tr \in Starts /\ l = tr /\ open = FALSE
+TInit == tr \in Starts /\ InitWith(Trace[tr].chain) /\ l = tr /\ open = FALSE
 HasNext == l + 1 <= Trace[tr].end
 Ev == Trace[l + 1]
 Eat == l' = l + 1 /\ UNCHANGED tr
@@ -70,6 +70,7 @@ TJobGate == /\ Is("cron.job.start")
             /\ Same /\ UNCHANGED open
 TJobStart == /\ Is("jobstart") /\ (\E j \in 1..Len(jobs) : jobs[j].id = Ev.id /\ JBegin(j)) /\ UNCHANGED open
 TJobEnd == /\ Is("jobend") /\ (\E j \in 1..Len(jobs) : jobs[j].id = Ev.id /\ JEnd(j)) /\ UNCHANGED open
+TJobSkip == /\ Is("jobskip") /\ (\E j \in 1..Len(jobs) : jobs[j].id = Ev.id /\ JSkip(j)) /\ UNCHANGED open
 TCtxDone == /\ Is("stopctx_done") /\ WDone(Ev.k) /\ UNCHANGED open
 TQuiescent == /\ Is("quiescent") /\ ~open /\ Quiesce /\ UNCHANGED open
 TIgnore == /\ HasNext /\ Ev.ev \in {"nx", "job.block", "stuck"} /\ Eat /\ Same /\ UNCHANGED open
@@ -83,7 +84,7 @@ Silent == /\ HasNext /\ UNCHANGED <<tr, l, open>>
 
 TNext == TSchedCall \/ TRemoveCall \/ TEntriesCall \/ TStopCall \/ TStart \/ TRet \/ TAdv
          \/ TLogStart \/ TLogSchedule \/ TArmed \/ TWoke \/ TLogWake \/ TRun \/ TLogAdded \/ TLogRemoved \/ TLogStop
-         \/ TJobGate \/ TJobStart \/ TJobEnd \/ TCtxDone \/ TQuiescent \/ TIgnore \/ Silent
+         \/ TJobGate \/ TJobStart \/ TJobEnd \/ TJobSkip \/ TCtxDone \/ TQuiescent \/ TIgnore \/ Silent
 TSpec == TInit /\ [][TNext]_tvars
 Done == IF l = Trace[tr].end THEN PrintT(<<"DONE", tr>>) ELSE TRUE
 =============================================================================
